@@ -2,7 +2,7 @@
 Driver op of the deepened C11 slice: the allocation drivers of cty/function/stdlib
 (model: CtyModel/Stdlib/d11Alloc.lean).
 
-  c11.alloc indent <val>                 -- IndentFunc up to strings.Repeat(" ", spaces)
+  c11.alloc indent <val> <len> <lines>   -- IndentFunc up to strings.Repeat(" ", spaces), for a string of <len> bytes with <lines> line breaks
   c11.alloc pad (<digit>*) <givenLen>    -- width digits as scanned by format_fsm, then formatPadWidth
   c11.alloc setproduct (<len>*)          -- SetProductFunc: total *= len; the two make() calls
 
@@ -15,9 +15,11 @@ open CtyModel CtyModel.D11
 
 def handleD11 : Handler := fun op args =>
   match op, args with
-  | "c11.alloc", [.atom "indent", v] => do
+  | "c11.alloc", [.atom "indent", v, dl, ln] => do
     let v ← Value.ofSexp v
-    pure (resTag (fun _ => "") (indentPad v)).trimAscii.toString
+    let dl ← Sexp.decInt dl
+    let ln ← Sexp.decInt ln
+    pure (resTag (fun n => if n == 0 then "nopad" else "pad") (indentPad v dl ln))
   | "c11.alloc", [.atom "pad", .list ds, g] => do
     let ds ← ds.mapM Sexp.decNat
     let g ← Sexp.decInt g
